@@ -678,6 +678,25 @@ class TaintInterp:
                 if isinstance(v, TLst):
                     return TC(tn == "list")
                 return T()
+            if n == "dict":
+                # dict(a=.., b=..) / dict(other, a=..) / dict(zip(("a", "b"), values)) with literal keys: a dictionary value
+                d_ = {}
+                ok_ = True
+                if args:
+                    a0 = args[0]
+                    if isinstance(a0, TDct):
+                        d_.update(a0.d)
+                    elif isinstance(a0, (TLst, TTup)) and getattr(a0, "extra", None) is None and all(isinstance(x, TTup) and len(x.items) == 2 and isinstance(x.items[0], TC) for x in a0.items):
+                        d_.update({x.items[0].v: x.items[1] for x in a0.items})
+                    else:
+                        ok_ = False
+                if ok_:
+                    d_.update(kw)
+                    return TDct(d_)
+            if n == "zip" and args and all(isinstance(a, (TLst, TTup)) and getattr(a, "extra", None) is None for a in args) and len({len(a.items) for a in args}) == 1:
+                return TLst([TTup([a.items[i] for a in args]) for i in range(len(args[0].items))])
+            if n == "enumerate" and len(args) == 1 and isinstance(args[0], (TLst, TTup)) and getattr(args[0], "extra", None) is None:
+                return TLst([TTup([TC(i), x]) for i, x in enumerate(args[0].items)])
             if n in ("len", "range", "tqdm.trange", "print", "int", "str", "type", "enumerate", "zip", "tqdm.tqdm", "list", "tuple", "float", "abs", "max", "min", "sum", "set", "sorted") or True:
                 if n in ("tqdm.tqdm", "list", "tuple") and len(args) == 1 and isinstance(args[0], (TLst, TTup)):
                     return args[0]
